@@ -9167,6 +9167,43 @@ let rec hook_sites = function
      | c :: l' -> app (hook_sites c) (go l')
      in go cs)
 
+(** val is_ns_ident : node -> bool **)
+
+let is_ns_ident = function
+| Node (t, cs) ->
+  (match t with
+   | K (k, _, _) ->
+     (match k with
+      | KIdent ->
+        (match cs with
+         | [] -> false
+         | _ :: l ->
+           (match l with
+            | [] -> false
+            | n1 :: _ ->
+              let Node (t0, cs0) = n1 in
+              (match t0 with
+               | Str s ->
+                 (match cs0 with
+                  | [] -> eqb1 s gen_DD_GLOBAL_NAMESPACE
+                  | _ :: _ -> false)
+               | _ -> false)))
+      | _ -> false)
+   | _ -> false)
+
+(** val ns_count : node -> nat **)
+
+let rec ns_count = function
+| Node (t, cs) ->
+  if is_ident (Node (t, cs))
+  then if is_ns_ident (Node (t, cs)) then S O else O
+  else if leaf (Node (t, cs))
+       then O
+       else let rec go = function
+            | [] -> O
+            | c :: l' -> add (ns_count c) (go l')
+            in go cs
+
 (** val any_node : (node -> bool) -> node -> bool **)
 
 let rec any_node p n0 =
@@ -15932,3 +15969,162 @@ let rec order_issues vp n0 =
      | [] -> []
      | c :: l' -> app (order_issues vp c) (go l')
      in go cs)
+
+(** val prop_ok : node -> bool **)
+
+let prop_ok prop =
+  (||) (leaf prop)
+    (let Node (t, cs) = prop in
+     (match t with
+      | K (k, _, _) ->
+        (match k with
+         | KComputed ->
+           (match cs with
+            | [] -> false
+            | _ :: l -> (match l with
+                         | [] -> true
+                         | _ :: _ -> false))
+         | _ -> false)
+      | _ -> false))
+
+(** val member_like_ok : node -> bool **)
+
+let member_like_ok = function
+| Node (t0, cs) ->
+  (match t0 with
+   | K (k, _, _) ->
+     (match k with
+      | KMember ->
+        (match cs with
+         | [] -> false
+         | _ :: l ->
+           (match l with
+            | [] -> false
+            | prop :: l0 ->
+              (match l0 with
+               | [] -> prop_ok prop
+               | _ :: _ -> false)))
+      | KSuperProp ->
+        (match cs with
+         | [] -> false
+         | obj :: l ->
+           (match l with
+            | [] -> false
+            | prop :: l0 ->
+              (match l0 with
+               | [] -> (&&) (leaf obj) (prop_ok prop)
+               | _ :: _ -> false)))
+      | _ -> false)
+   | _ -> false)
+
+(** val target_ok : node -> bool **)
+
+let rec target_ok lhs =
+  (||) ((||) (is_ident lhs) (member_like_ok lhs))
+    (let Node (t, cs) = lhs in
+     (match t with
+      | K (k, _, _) ->
+        (match k with
+         | KParen ->
+           (match cs with
+            | [] -> false
+            | e :: l -> (match l with
+                         | [] -> target_ok e
+                         | _ :: _ -> false))
+         | _ -> false)
+      | _ -> false))
+
+(** val wf_node : node -> bool **)
+
+let wf_node = function
+| Node (t, cs) ->
+  (match t with
+   | K (k, _, _) ->
+     (match k with
+      | KAssign ->
+        (match cs with
+         | [] -> false
+         | n1 :: l ->
+           let Node (t0, cs0) = n1 in
+           (match t0 with
+            | Str op ->
+              (match cs0 with
+               | [] ->
+                 (match l with
+                  | [] -> false
+                  | lhs :: l0 ->
+                    (match l0 with
+                     | [] -> false
+                     | _ :: l1 ->
+                       (match l1 with
+                        | [] ->
+                          if eqb1 op ('+'::('='::[]))
+                          then target_ok lhs
+                          else true
+                        | _ :: _ -> false)))
+               | _ :: _ -> false)
+            | _ -> false))
+      | KTaggedTpl ->
+        (match cs with
+         | [] -> true
+         | _ :: l ->
+           (match l with
+            | [] -> true
+            | _ :: l0 ->
+              (match l0 with
+               | [] -> true
+               | _ :: l1 ->
+                 (match l1 with
+                  | [] -> true
+                  | x :: l2 ->
+                    (match l2 with
+                     | [] -> is_kind KTpl x
+                     | _ :: _ -> true)))))
+      | KCall ->
+        (match cs with
+         | [] -> false
+         | cx :: l ->
+           (match l with
+            | [] -> false
+            | _ :: l0 ->
+              (match l0 with
+               | [] -> false
+               | n1 :: l1 ->
+                 let Node (t0, _) = n1 in
+                 (match t0 with
+                  | Lst ->
+                    (match l1 with
+                     | [] -> false
+                     | targs :: l2 ->
+                       (match l2 with
+                        | [] -> (&&) (leaf cx) (leaf targs)
+                        | _ :: _ -> false))
+                  | _ -> false))))
+      | KOptChain -> false
+      | _ -> true)
+   | _ -> true)
+
+(** val wf_all : node -> bool **)
+
+let rec wf_all n0 =
+  (&&) (wf_node n0)
+    (let Node (_, cs) = n0 in
+     let rec go = function
+     | [] -> true
+     | c :: l' -> (&&) (wf_all c) (go l')
+     in go cs)
+
+(** val has_kind : kind -> node -> bool **)
+
+let rec has_kind k n0 =
+  (||) (is_kind k n0)
+    (let Node (_, cs) = n0 in
+     let rec go = function
+     | [] -> false
+     | c :: l' -> (||) (has_kind k c) (go l')
+     in go cs)
+
+(** val has_optchain : node -> bool **)
+
+let has_optchain n0 =
+  has_kind KOptChain n0
